@@ -393,6 +393,10 @@ def build_archive(entries, cuts):
                 f = files[base + i - a]
                 f["filename"] = e["name"]
                 f["attributes"] = _attributes(e)
+                if e["empty"] and e["kind"] != "d":
+                    # an entry without data is a file (here: an empty file or link) only when its EmptyFile bit is set;
+                    # without the bit the format -- and ArchiveFile.is_directory -- call it a directory, whatever its attributes
+                    f["emptyfile"] = True
                 if not e.get("mtime", True):
                     f.pop("lastwritetime", None)
         first = False
